@@ -92,6 +92,15 @@ CLAIMED.update({
              technique='Coq proof over a hand-written executable model of the builders on top of the regenerated accessor records; differential tie + reference search',
              ref='DESIGN.md section 4 C06'),
 })
+CLAIMED.update({
+ 'C09': dict(text='Theorem C09_pad: the modelled Avtp_Vss_Pad (hand model; the pointer type the offset is added to is read from the AST each run and must be a byte '
+                  'pointer) equals the reference pad for every length 12 <= n < 2^16 and every prior content; C09_pad_meaning: length field = ceil(n/4), pad field = '
+                  'bytes added, exactly [n, n+pad) zeroed, every other header bit and byte unchanged (n <= 2044); C09_length_accessors: the dedicated length accessors '
+                  'carry all 512 values.',
+             note=FIELD_NOTE + ' Avtp_Vss_Pad is hand-modelled and tied by differential execution on exact-extent buffers and a 32 KiB arena.',
+             technique='Coq proof over a hand-written model with AST-derived pointer scale; differential tie + reference search',
+             ref='DESIGN.md section 4 C09'),
+})
 ALL = ['C%02d' % i for i in range(1, 21)]
 def main():
     checks = []
